@@ -317,6 +317,7 @@ struct Gen<'a> {
     mods: &'a [ModInfo],
     globals: &'a [String],
     tagc: usize,
+    cli: bool, // programs for the jaq binary: `input_filename` (a definition of the prelude) is callable
 }
 
 #[derive(Clone)]
@@ -354,6 +355,10 @@ impl<'a> Gen<'a> {
             }
         }
         v.extend([("type".to_string(), 0), ("length".to_string(), 0), ("not".to_string(), 0)]);
+        if self.cli {
+            v.push(("input_filename".to_string(), 0));
+            v.push(("input_filename".to_string(), 0));
+        }
         v
     }
 
@@ -512,10 +517,14 @@ impl<'a> Gen<'a> {
 
 /// Fill the modules (headers + signatures given) with bodies; the last entry of `mods` is main.
 fn fill(rng: &mut Rng, noise: usize, mods: &[ModInfo], globals: &[String], bad: &[usize]) -> Case {
+    fill_with(rng, noise, mods, globals, bad, false)
+}
+
+fn fill_with(rng: &mut Rng, noise: usize, mods: &[ModInfo], globals: &[String], bad: &[usize], cli: bool) -> Case {
     let mut files = Vec::new();
     let mut main = Src::Bad;
     let n = mods.len();
-    let mut g = Gen { rng, noise, mods, globals, tagc: 0 };
+    let mut g = Gen { rng, noise, mods, globals, tagc: 0, cli };
     for (mi, m) in mods.iter().enumerate() {
         let base = Scope { mi, vars: Vec::new(), fns: Vec::new(), forbidden: Vec::new() };
         if mi == n - 1 {
@@ -620,6 +629,10 @@ fn exhaustive_case(rng: &mut Rng, shape: usize) -> Case {
 
 /// larger random graphs with every irregularity
 fn random_case(rng: &mut Rng) -> Case {
+    random_case_with(rng, None, false)
+}
+
+fn random_case_with(rng: &mut Rng, forced_globals: Option<&[String]>, cli: bool) -> Case {
     let nm = 2 + rng.below(4);
     let names = ["a", "b", "c", "d", "e"];
     let aliases = ["ma", "mb", "mc"];
@@ -675,13 +688,199 @@ fn random_case(rng: &mut Rng) -> Case {
     if rng.chance(1, 15) {
         bad.push(rng.below(nm + 1));
     }
-    let globals = gen_globals(rng);
-    let noise = [0, 0, 0, 10, 25][rng.below(5)];
-    let mut c = fill(rng, noise, &mods, &globals, &bad);
+    let globals = match forced_globals {
+        Some(g) => g.to_vec(),
+        None => gen_globals(rng),
+    };
+    let mut noise = [0, 0, 0, 10, 25][rng.below(5)];
+    if cli {
+        // errors are compared by class only on the command line: keep most programs compiling
+        noise = noise.min(5);
+    }
+    let mut c = fill_with(rng, noise, &mods, &globals, &bad, cli);
     if rng.chance(1, 40) {
         c.files.push(("".into(), Src::Mod(Vec::new(), Vec::new())));
     }
     c
+}
+
+
+fn shuffle<T>(rng: &mut Rng, v: &mut Vec<T>) {
+    for k in (1..v.len()).rev() {
+        let l = rng.below(k + 1);
+        v.swap(k, l);
+    }
+}
+
+/// Structured families aimed at the interplay of data imports, global variables and the two
+/// kinds of directive:
+///   0  data chain: a dependency has its own data import(s) while a later module and main have
+///      others under clashing names; globals of the same names
+///   1  non-transitivity: main imports/includes `a`, `a` includes `b` (and `c`): what `b` defines
+///      is not visible in main, neither plain nor as `ma::…`
+///   2  one file reached as include AND as import (also under a second name) from main and from
+///      another module
+///   3  all of it: diamond with data imports at every level, globals next to them
+fn targeted_layout(rng: &mut Rng, variant: usize, globals_extra: &[String]) -> (Vec<ModInfo>, Vec<String>, usize) {
+    let aliases = ["ma", "mb", "mc"];
+    let dnames = ["$d", "$e", "$g", "$x"];
+    let data = |rng: &mut Rng, dirs: &mut Vec<Dir>, lo: usize, span: usize| {
+        let n = lo + rng.below(span);
+        for _ in 0..n {
+            let rel = rng.pick(&["da", "db", "dc"]).to_string();
+            let pos = rng.below(dirs.len() + 1);
+            dirs.insert(pos, Dir::Data(rel, rng.pick(&dnames).to_string()));
+        }
+    };
+    let inc_or_imp = |rng: &mut Rng, t: &str| -> Dir {
+        if rng.chance(1, 2) { Dir::Inc(t.to_string()) } else { Dir::Imp(t.to_string(), rng.pick(&aliases).to_string()) }
+    };
+    let mut a = Vec::new();
+    let mut b = Vec::new();
+    let mut c = Vec::new();
+    let mut m = Vec::new();
+    match variant % 4 {
+        0 => {
+            // c <- b <- a <- main (+ main -> c), data everywhere
+            b.push(inc_or_imp(rng, "c"));
+            a.push(inc_or_imp(rng, "b"));
+            m.push(inc_or_imp(rng, "a"));
+            if rng.chance(1, 2) {
+                m.push(inc_or_imp(rng, "c"));
+            }
+            data(rng, &mut c, 1, 2);
+            data(rng, &mut b, 0, 2);
+            data(rng, &mut a, 1, 2);
+            data(rng, &mut m, 1, 2);
+        }
+        1 => {
+            a.push(Dir::Inc("b".into()));
+            if rng.chance(1, 2) {
+                a.push(Dir::Inc("c".into()));
+            } else {
+                b.push(Dir::Inc("c".into()));
+            }
+            m.push(inc_or_imp(rng, "a"));
+            if rng.chance(1, 3) {
+                m.push(Dir::Imp("a".into(), rng.pick(&aliases).to_string()));
+            }
+            data(rng, &mut b, 0, 2);
+            data(rng, &mut m, 0, 2);
+        }
+        2 => {
+            m.push(Dir::Inc("a".into()));
+            m.push(Dir::Imp(if rng.chance(1, 2) { "a@" } else { "a" }.into(), rng.pick(&aliases).to_string()));
+            b.push(Dir::Imp("a".into(), rng.pick(&aliases).to_string()));
+            if rng.chance(1, 2) {
+                b.push(Dir::Inc("a@".into()));
+            }
+            m.push(inc_or_imp(rng, "b"));
+            if rng.chance(1, 2) {
+                a.push(inc_or_imp(rng, "c"));
+            }
+            shuffle(rng, &mut m);
+            shuffle(rng, &mut b);
+            data(rng, &mut a, 0, 2);
+            data(rng, &mut m, 0, 2);
+        }
+        _ => {
+            // diamond: main -> a, b ; a -> c ; b -> c
+            a.push(inc_or_imp(rng, "c"));
+            b.push(inc_or_imp(rng, "c"));
+            m.push(inc_or_imp(rng, "a"));
+            m.push(inc_or_imp(rng, "b"));
+            if rng.chance(1, 3) {
+                m.push(inc_or_imp(rng, "c"));
+            }
+            shuffle(rng, &mut m);
+            data(rng, &mut c, 1, 1);
+            data(rng, &mut a, 1, 2);
+            data(rng, &mut b, 0, 2);
+            data(rng, &mut m, 1, 2);
+        }
+    }
+    let mut mods = Vec::new();
+    for (name, dirs) in [("a", a), ("b", b), ("c", c)] {
+        mods.push(ModInfo { path: name.to_string(), dirs, sigs: gen_sigs(rng) });
+    }
+    mods.push(ModInfo { path: "main".into(), dirs: m, sigs: Vec::new() });
+    // globals clash with the data names on purpose
+    let n = 1 + rng.below(3);
+    let mut globals: Vec<String> = (0..n).map(|_| rng.pick(&["$g", "$d", "$e", "$G"]).to_string()).collect();
+    globals.extend(globals_extra.iter().cloned());
+    let noise = [0, 0, 0, 10, 20][rng.below(5)];
+    (mods, globals, noise)
+}
+
+fn targeted_case(rng: &mut Rng, variant: usize) -> Case {
+    let (mods, globals, noise) = targeted_layout(rng, variant, &[]);
+    fill(rng, noise, &mods, &globals, &[])
+}
+
+// ---------------------------------------------------------------- programs for the jaq binary
+fn hex(s: &str) -> String {
+    s.bytes().map(|b| format!("{b:02x}")).collect()
+}
+
+/// text of a file for the command line: a second name of a file (`a@`) is spelt `./a`
+fn cli_text(s: &Src) -> String {
+    let t = show_src(s);
+    let mut out = t.clone();
+    for name in ["a", "b", "c", "d", "e"] {
+        out = out.replace(&format!("\"{name}@@\""), &format!("\"././{name}\""));
+        out = out.replace(&format!("\"{name}@\""), &format!("\"./{name}\""));
+    }
+    out
+}
+
+/// `c16 gencli`: module graphs run through the jaq binary with `--arg/--argjson/--slurpfile/
+/// --rawfile`, data imports, `$ENV`, `$ARGS` and `input_filename` used inside modules.
+/// One line per case: `CLI id \t named (kind|$name|value,…) \t model graph (files + main) \t
+/// main text (hex) \t file=hex,…`
+pub fn gencli(tier: &str) {
+    let seed = prng::seed_from_env();
+    let n = if tier == "thorough" { 700 } else { 160 };
+    let mut rng = Rng::new(seed ^ 0xC116);
+    for id in 0..n {
+        // named variables: 0-4, kinds mixed, names clash with each other, with data names and with ENV
+        let nn = [0, 1, 2, 2, 3, 4][rng.below(6)];
+        let mut named: Vec<(String, String, String)> = Vec::new();
+        for i in 0..nn {
+            let kind = rng.pick(&["arg", "argjson", "slurpfile", "rawfile"]).to_string();
+            let name = rng.pick(&["$g", "$d", "$e", "$G", "$ENV", "$x"]).to_string();
+            named.push((kind.clone(), name.clone(), format!("{}:{}:{}", kind.to_uppercase(), &name[1..], i)));
+        }
+        // the order of the run-time vector (`binds`): by kind, not by position
+        let mut names: Vec<String> = Vec::new();
+        for k in ["arg", "rawfile", "slurpfile", "argjson"] {
+            names.extend(named.iter().filter(|x| x.0 == k).map(|x| x.1.clone()));
+        }
+        names.push("$ARGS".into());
+        names.push("$ENV".into());
+        let c = if rng.chance(2, 3) {
+            let (mods, globals, noise) = targeted_layout(&mut rng, id, &names);
+            // drop the random globals of the layout: only what the command line defines exists
+            let globals: Vec<String> = globals.into_iter().filter(|g| names.contains(g)).collect();
+            fill_with(&mut rng, if noise == 20 { 4 } else { 0 }, &mods, &globals, &[], true)
+        } else {
+            loop {
+                let c = random_case_with(&mut rng, Some(&names), true);
+                if c.main_path == "main" && !c.files.iter().any(|(p, _)| p.is_empty()) {
+                    break c;
+                }
+            }
+        };
+        let mut enc = c.clone();
+        enc.globals = Vec::new();
+        let files: Vec<String> = c.files.iter().map(|(p, s)| format!("{p}={}", hex(&cli_text(s)))).collect();
+        println!(
+            "CLI k{id}\t{}\t{}\t{}\t{}",
+            named.iter().map(|(k, n, v)| format!("{k}|{n}|{v}")).collect::<Vec<_>>().join(","),
+            enc_case(&enc),
+            hex(&cli_text(&c.main)),
+            files.join(",")
+        );
+    }
 }
 
 pub fn gen(tier: &str) {
@@ -707,6 +906,11 @@ pub fn gen(tier: &str) {
             let mut rng = Rng::new(seed ^ ((shape as u64) << 8) ^ (k as u64) ^ 0x16);
             emit(&exhaustive_case(&mut rng, shape));
         }
+    }
+    let ntarget = if tier == "thorough" { 6000 } else { 1200 };
+    let mut rng = Rng::new(seed ^ 0x7A16);
+    for v in 0..ntarget {
+        emit(&targeted_case(&mut rng, v));
     }
     let nrand = if tier == "thorough" { 30000 } else { 4000 };
     let mut rng = Rng::new(seed ^ 0x1616);
@@ -738,8 +942,9 @@ pub fn main(args: &[String]) {
     match args.first().map(|s| s.as_str()) {
         Some("gen") => gen(&tier),
         Some("single") => single(),
+        Some("gencli") => gencli(&tier),
         _ => {
-            eprintln!("usage: c16 gen|single");
+            eprintln!("usage: c16 gen|single|gencli");
             std::process::exit(2);
         }
     }
